@@ -36,6 +36,18 @@ class Rec:
         return f"{self.kind}({', '.join(map(repr, self.args))}{', ' if self.args and self.kw else ''}{', '.join(f'{k}={v!r}' for k, v in self.kw.items())})"
 
 
+def _mentions(v, kind, depth=0):
+    if depth > 12:
+        return False
+    if isinstance(v, Rec):
+        return v.kind == kind or any(_mentions(a, kind, depth + 1) for a in v.args) or any(_mentions(a, kind, depth + 1) for a in v.kw.values())
+    if isinstance(v, (list, tuple)):
+        return any(_mentions(a, kind, depth + 1) for a in v)
+    if isinstance(v, dict):
+        return any(_mentions(a, kind, depth + 1) for a in v.values())
+    return False
+
+
 def rec(kind):
     return lambda *a, **k: Rec(kind, *a, **k)
 
@@ -87,6 +99,9 @@ def install(it, dimv):
     lib["equinox.tree_at"] = lambda where, pytree, replace=None, replace_fn=None, **k: Rec("tree_at", pytree, replace=replace, replace_fn=replace_fn, shape=getattr(pytree, "shape", None))
     lib["equinox.if_array"] = lambda ax: ax
     g["_affine_with_min_scale"] = lambda *a, **k: Rec("default_affine_transformer", *a, **k)
+    # a factory that unwraps what it built bakes masks / reparameterisations into plain trainable arrays (the structure is then lost
+    # at the first optimiser step): recorded, so that the layer-structure obligations see it
+    g["unwrap"] = lambda t: Rec("unwrapped_inside_the_factory", t)
     it.global_overrides[MOD] = g
 
 
@@ -120,6 +135,10 @@ def factories(ctx):
                     if not good:
                         continue
                     b = d.args[1]
+                    # nothing the factory built was unwrapped on the way out: masks (Where), reparameterisations and frozen leaves have to
+                    # survive construction, otherwise they are ordinary trainable arrays from the first optimiser step on
+                    ctx.oblige(f"C04/{tag}/post/constraint_wrappers_survive_construction#{n_}", not _mentions(d, "unwrapped_inside_the_factory"), [], props, kind="struct", fn=fnq, replay=rp,
+                               note="the factory calls unwrap on (part of) the flow it returns")
                     # either orientation is a valid flow (which one `invert` selects is a performance choice, not part of the property)
                     if isinstance(b, Rec) and b.kind == "Invert" and isinstance(b.args[0], Rec) and b.args[0].kind == "Scan":
                         scan = b.args[0]
